@@ -249,11 +249,11 @@ func runBlasCase(t *vlib.T, bm *blasMethod, proto Call, menus blasMenus) {
 			ks = append(ks, fkNames[i])
 		}
 	}
-	oc := "nonempty:"
 	if !nonEmpty(&proto) {
-		oc = "empty:"
+		t.Outcome(fmt.Sprintf("L%d zero-sized problem: %s", r.Level, strings.Join(ks, "+")))
+	} else {
+		t.Outcome(fmt.Sprintf("L%d %s: %s", r.Level, r.Base, strings.Join(ks, "+")))
 	}
-	t.Outcome(fmt.Sprintf("L%d %s %s%s", r.Level, r.Base, oc, strings.Join(ks, "+")))
 	if st.kinds[fkShort] {
 		t.Nontrivial()
 	}
